@@ -315,9 +315,19 @@ def run_case(tier, seed, index, spec=None, tree=None):
 def derive_check(fggs, D, rng, spec, fgg, info, tree, expected, viols, obs):
     total = [0.0]
 
+    shared = {}       # leaf derivations used at several positions may be the very same object
+
     def build(t, ext_vals):
         ri = t['rule']
         r = spec['rules'][ri]
+        key = (ri, tuple(ext_vals))
+        if not t['children'] and key in shared and rng.random() < 0.7:
+            obj, w = shared[key]
+            total[0] = total[0] + w if not (total[0] == -math.inf or w == -math.inf) else -math.inf
+            obs['shared_subderivation_objects'] = obs.get('shared_subderivation_objects', 0) + 1
+            return obj
+        before = total[0]
+        total[0] = 0.0
         vals = {}
         for v, x in zip(r['ext'], ext_vals):
             vals[v] = x
@@ -329,8 +339,13 @@ def derive_check(fggs, D, rng, spec, fgg, info, tree, expected, viols, obs):
                 x = G.get_nested(G.weights_in(spec, lab, 'viterbi'), [vals[v] for v in att])
                 total[0] = total[0] + x if not (total[0] == -math.inf or x == -math.inf) else -math.inf
         asst = {info['nodes'][ri][v]: x for v, x in vals.items()}
+        own = total[0]
+        total[0] = before + own if not (before == -math.inf or own == -math.inf) else -math.inf
         children = {info['edges'][ri, k]: build(c, [vals[v] for v in r['edges'][k][1]]) for k, c in t['children'].items()}
-        return D.FGGDerivation(fgg, info['rules'][ri], asst, children)
+        obj = D.FGGDerivation(fgg, info['rules'][ri], asst, children)
+        if not t['children']:
+            shared[key] = (obj, own)
+        return obj
     s = spec['start']
     ext_vals = [rng.randrange(spec['domains'][l]) for l in spec['nonterminals'][s]]
     d = build(tree, ext_vals)
